@@ -207,6 +207,15 @@ func validateRaw(msg messages.Builder, d []byte, strict bool) error {
 	}
 	bodyLength := blVal.Value().(int)
 
+	// BeginString and BodyLength must be the first two fields, CheckSum the last one.
+	if bs.Load().IsNull() || cs.Load().IsNull() {
+		return fmt.Errorf("an invalid message structure: BeginString or CheckSum is missing")
+	}
+	if !bytes.HasPrefix(d, bytes.Join([][]byte{bs.ToBytes(), bl.ToBytes(), {}}, fix.Delimiter)) ||
+		!bytes.HasSuffix(d, bytes.Join([][]byte{{}, cs.ToBytes(), {}}, fix.Delimiter)) {
+		return fmt.Errorf("an invalid message structure: BeginString and BodyLength must come first and CheckSum last")
+	}
+
 	offset := len(bs.ToBytes()) + 1 // extra delimiter
 	offset += len(bl.ToBytes()) + 1 // extra delimiter
 	length := len(d) - offset
